@@ -347,3 +347,23 @@ class FitLoop(_VecMixin):
             ("best_gap_within_precision_of_the_smallest_gap", ForAll([j], Implies(And(0 <= j, j < n), to_real(bg) <= gaps.raw(j) + z3.RealVal("1e-8") if False else to_real(bg) <= gaps.raw(j) + z3.Q(1, 100000000)))),
             ("later_iterations_are_worse_by_more_than_precision", ForAll([j], Implies(And(best < j, j < n), gaps.raw(j) > to_real(bg) - z3.Q(1, 100000000)))),
             ("stopping_early_certifies_convergence", Implies(stopped_early, to_real(bg) < self.nu + z3.Q(1, 100000000)))]
+
+
+
+def _fit_native_search(self, ob, r):
+    """bounded native search after a refuted / undecided obligation of the fit loop: the real ExponentiatedGradient.fit with the exact learner of the
+    stand-in (vf/bounded/C08.py) on ~800 seeded small cases without and with the LP step, all guarantees re-evaluated from first principles"""
+    from ..bounded import C08 as X
+    cases = [c for c in X._cases(0, 3, 2, 40) if c[7] <= 20]
+    cases = [c for c in cases if c[8]][:60] + [c for c in cases if not c[8]]          # ~800 runs: the rare histories (a predictor discovered by the gap
+    # evaluation before it is selected, non-monotone gaps) need the EG iterate to be returned, i.e. run_linprog_step=False
+    known = {"C08:fit:raises:zero-signed-weights-nan"}
+    for c in cases:
+        res = X._check(c)[2]
+        if res is not None and res[0] not in known:
+            key, what, rp = res
+            return {"confirmed": True, "key": key, "what": what, "replay": rp}
+    return {"confirmed": False}
+
+
+FitLoop.replay = _fit_native_search
